@@ -559,9 +559,9 @@ def r6_naming_order(ctx, rep):
 
 RULES = [
     RuleSpec("C12.R6", r6_naming_order, "page-name numbering does not depend on set iteration order", floor=1),
-    RuleSpec("C12.R5", r5_serial_parallel_agree, "serial and parallel graph output agree", floor=6),
-    RuleSpec("C12.R4", r4_graph_emission, "graph node/edge emission iterates sorted views (shared with C13.R5)", floor=18),
+    RuleSpec("C12.R5", r5_serial_parallel_agree, "serial and parallel graph output agree", floor=3),
+    RuleSpec("C12.R4", r4_graph_emission, "graph node/edge emission iterates sorted views (shared with C13.R5)", floor=10),
     RuleSpec("C12.R1", r1_unordered_iteration, "no unordered source reaches an order-sensitive sink unsorted", floor=10),
-    RuleSpec("C12.R2", r2_stale_output, "stale output cannot survive", floor=4),
+    RuleSpec("C12.R2", r2_stale_output, "stale output cannot survive", floor=2),
     RuleSpec("C12.R3", r3_clock, "clock and identity stay out of the output", floor=4),
 ]
